@@ -42,28 +42,61 @@ func (b *TupleBuilder) Put(name string, value Value) {
 func (b *TupleBuilder) Finish() Tuple {
 	m := (*frozen.MapBuilder[string, Value])(b).Finish()
 	if index, has := m.Get("@"); has && m.Count() == 2 {
-		i := index
-		switch {
-		case m.Has(StringCharAttr):
-			return NewStringCharTuple(
-				int(i.(Number).Float64()),
-				rune(m.MustGet(StringCharAttr).(Number).Float64()),
-			)
-		case m.Has(BytesByteAttr):
-			return NewBytesByteTuple(
-				int(i.(Number).Float64()),
-				byte(m.MustGet(BytesByteAttr).(Number).Float64()),
-			)
-		case m.Has(ArrayItemAttr):
-			return NewArrayItemTuple(
-				int(i.(Number).Float64()),
-				m.MustGet(ArrayItemAttr),
-			)
-		case m.Has(DictValueAttr):
-			return NewDictEntryTuple(i, m.MustGet(DictValueAttr))
+		for i := m.Range(); i.Next(); {
+			if name, value := i.Entry(); name != "@" {
+				if t, ok := specialTuple(index, name, value); ok {
+					return t
+				}
+			}
 		}
 	}
 	return &GenericTuple{tuple: m}
+}
+
+// specialTuple returns the specialised representation of (@: at, name: value)
+// if there is one that represents it exactly: the index must be an integer and
+// a @char or @byte must be in range, otherwise the tuple stays generic. As
+// before, @ (and @char, @byte) must be numbers for these headings.
+func specialTuple(at Value, name string, value Value) (Tuple, bool) {
+	switch name {
+	case DictValueAttr:
+		return NewDictEntryTuple(at, value), true
+	case ArrayItemAttr:
+		if i, ok := at.(Number).Int(); ok {
+			return NewArrayItemTuple(i, value), true
+		}
+	case StringCharAttr:
+		i, iok := at.(Number).Int()
+		r, rok := value.(Number).Int()
+		if iok && rok && 0 <= r && r <= 0x10FFFF {
+			return NewStringCharTuple(i, rune(r)), true
+		}
+	case BytesByteAttr:
+		i, iok := at.(Number).Int()
+		b, bok := value.(Number).Int()
+		if iok && bok && 0 <= b && b <= 0xFF {
+			return NewBytesByteTuple(i, byte(b)), true
+		}
+	}
+	return nil, false
+}
+
+// maybeSpecialTuple returns the specialised representation of t if it has
+// one, otherwise t. Unlike specialTuple it never panics.
+func maybeSpecialTuple(t Tuple) Tuple {
+	if t.Count() == 2 && t.HasName("@") {
+		switch {
+		case t.HasName(StringCharAttr):
+			return maybeNewCharTupleFromTuple(t)
+		case t.HasName(BytesByteAttr):
+			return maybeNewBytesByteTupleFromTuple(t)
+		case t.HasName(ArrayItemAttr):
+			return maybeNewArrayItemTupleFromTuple(t)
+		case t.HasName(DictValueAttr):
+			return maybeNewDictEntryTupleFromTuple(t)
+		}
+	}
+	return t
 }
 
 // NewAttr returns an Attr with the given name and value.
@@ -108,21 +141,8 @@ func NewTuple(attrs ...Attr) Tuple {
 			attrs[0], attrs[1] = attrs[1], attrs[0]
 		}
 		if attrs[0].Name == "@" && strings.HasPrefix(attrs[1].Name, "@") {
-			switch attrs[1].Name {
-			case StringCharAttr:
-				return NewStringCharTuple(
-					int(attrs[0].Value.(Number).Float64()),
-					rune(attrs[1].Value.(Number).Float64()),
-				)
-			case BytesByteAttr:
-				return NewBytesByteTuple(
-					int(attrs[0].Value.(Number).Float64()),
-					byte(attrs[1].Value.(Number).Float64()),
-				)
-			case ArrayItemAttr:
-				return NewArrayItemTuple(int(attrs[0].Value.(Number).Float64()), attrs[1].Value)
-			case DictValueAttr:
-				return NewDictEntryTuple(attrs[0].Value, attrs[1].Value)
+			if t, ok := specialTuple(attrs[0].Value, attrs[1].Name, attrs[1].Value); ok {
+				return t
 			}
 		}
 	}
@@ -543,7 +563,7 @@ func (t *GenericTuple) Map(f func(Value) (Value, error)) (Tuple, error) {
 		}
 		b.Put(key, v)
 	}
-	return &GenericTuple{tuple: b.Finish()}, nil
+	return maybeSpecialTuple(&GenericTuple{tuple: b.Finish()}), nil
 }
 
 // HasName returns true iff the Tuple has an attribute with the given name.
